@@ -19,6 +19,7 @@ type busKnobs struct {
 	actsPerThread                        int
 	wOnce, wAsync, wSeq, wPanic, wCtxPub int // percentages; 0 = default
 	manyTypes                            bool
+	reent                                bool // re-entrant publishes of the handler's own type are frequent
 }
 
 func genBusProgram(rng *rand.Rand, k busKnobs) *busProgram {
@@ -87,6 +88,9 @@ func genBusProgram(rng *rand.Rand, k busKnobs) *busProgram {
 	nf := 3
 	for f := 0; f < nf; f++ {
 		fl := filt{min: []int{0, 5, 5}[rng.Intn(3)]}
+		if k.reent {
+			fl.min = 5
+		}
 		if rng.Intn(3) == 0 {
 			fl.acts = append(fl.acts, simpleAct())
 		}
@@ -111,14 +115,31 @@ func genBusProgram(rng *rand.Rand, k busKnobs) *busProgram {
 		}
 		return a, true
 	}
-	mkBody := func(t int, depth int) int {
-		if rng.Intn(3) == 0 {
+	// selfLo/selfAny: the body may publish the handler's own type again - values below 5 when the handler has a filter
+	// that rejects them, any value when the handler is a Once handler; either way the recursion is bounded
+	mkBody := func(t int, depth int, selfLo, selfAny bool) int {
+		if rng.Intn(3) == 0 && !(k.reent && (selfLo || selfAny)) {
 			return 0
 		}
 		id := nextBody
 		nextBody++
 		var as []action
-		for i := rng.Intn(3); i > 0; i-- {
+		nacts := rng.Intn(3)
+		if k.reent && (selfLo || selfAny) {
+			nacts = 1 + rng.Intn(2)
+		}
+		for i := nacts; i > 0; i-- {
+			if (selfLo || selfAny) && (rng.Intn(3) == 0 || k.reent) {
+				a := action{kind: "pub", t: t, v: rng.Intn(5)}
+				if selfAny && !selfLo {
+					a.v = rng.Intn(10)
+				}
+				if k.ctx && rng.Intn(4) == 0 {
+					a.c = 1 + rng.Intn(2)
+				}
+				as = append(as, a)
+				continue
+			}
 			if rng.Intn(3) == 0 && depth < 2 {
 				if a, ok := pubAct(t + 1); ok {
 					as = append(as, a)
@@ -166,10 +187,13 @@ func genBusProgram(rng *rand.Rand, k busKnobs) *busProgram {
 		if k.seq && pct(k.wSeq, 33) {
 			sp.seq = true
 		}
-		if rng.Intn(3) == 0 {
+		if rng.Intn(3) == 0 || (k.reent && !sp.once && rng.Intn(2) == 0) {
 			sp.filter = rng.Intn(nf)
 		}
-		sp.body = mkBody(t, depth)
+		selfLo := sp.filter >= 0 && p.filters[sp.filter].min == 5
+		// only registrations made by the threads themselves may publish their own type: a handler that subscribes
+		// fresh self-publishing Once handlers would recurse without bound
+		sp.body = mkBody(t, depth, selfLo && depth == 0, sp.once && depth == 0)
 		return sp
 	}
 	for th := 0; th < k.threads; th++ {
@@ -325,6 +349,10 @@ func init() {
 		nt := 2 + rng.Intn(4)
 		if rng.Intn(3) == 0 {
 			nt = 33 + rng.Intn(8)
+		}
+		if rng.Intn(3) == 0 { // handlers that publish their own type again while it is being delivered
+			return busKnobs{threads: 1, ntypes: 1 + rng.Intn(2), async: rng.Intn(4) == 0, seq: rng.Intn(3) == 0, once: true, wOnce: 40,
+				reent: true, viaAny: rng.Intn(3) == 0, actsPerThread: 10}
 		}
 		return busKnobs{threads: 1, ntypes: nt, async: rng.Intn(3) == 0, seq: true, once: true, panics: rng.Intn(4) == 0,
 			ctx: rng.Intn(4) == 0, hooks: rng.Intn(3) == 0, viaAny: true, actsPerThread: 10}
